@@ -54,6 +54,10 @@ impl<'a> Ev<'a> {
                     "Err" => return vec![(st, Flow::Val(Val::err(args.into_iter().next().unwrap_or(Val::Unit))))],
                     _ => {}
                 }
+                // std / quote functions named as values whose effect on a value is the identity in this domain
+                if matches!(p, "ToTokens::to_token_stream" | "ToTokens::into_token_stream" | "Clone::clone" | "ToOwned::to_owned" | "Into::into" | "AsRef::as_ref" | "Ident::unraw" | "IdentExt::unraw") && args.len() == 1 && !matches!(p, "Ident::unraw" | "IdentExt::unraw") {
+                    return vec![(st, Flow::Val(args.into_iter().next().unwrap()))];
+                }
                 if let Some(fd) = self.ix.get_fn(p) {
                     if fd.sig.receiver().is_some() {
                         let mut it = args.into_iter();
